@@ -54,6 +54,15 @@ Definition reveals_equivocation (shs : list bshred) : bool :=
      existsb (fun s => b_last s && existsb (fun s' => (b_slice s <? b_slice s') || ((b_slice s' =? b_slice s) && negb (b_last s'))
                                                        || ((b_slice s' <? b_slice s) && b_last s')) shs) shs.
 Definition tag_ok (s : bshred) : bool := Bool.eqb (b_index s <? DATA_SHREDS) (b_is_data s).
+(* a shred whose (unsigned) data / coding type contradicts its index is not evidence of anything: it must be
+   refused up front with InvalidShred, without any event - in particular without blaming the leader *)
+Definition tag_refusal_ok (st : bstep) : bool :=
+  match bs_op' st with
+  | BDissem s | BRepair _ _ s =>
+    tag_ok s || (match bs_ret' st with BRErr EInvalidShred => true | _ => false end
+                 && match bs_events st with [] => true | _ => false end)
+  | BOwnSlice _ _ _ _ => true
+  end.
 
 (* the block an honest, well-formed set of commitments describes: slices 0..last each with >= DATA_SHREDS shreds *)
 Definition honest_block (slot : N) (ct : content) (shs : list bshred) : option (blockhash * blockid) :=
@@ -84,19 +93,24 @@ Definition honest_block (slot : N) (ct : content) (shs : list bshred) : option (
    - at most one FirstShred / Block / InvalidBlock each; FirstShred as soon as anything was stored
    - a Block event only for the block the delivered commitments describe (hash = its slice roots, leader's parent)
    - no Block from dissemination after InvalidBlock
-   - with honest, consistent, well-formed, correctly tagged shreds: never InvalidBlock, and the Block as soon as
-     every slice has DATA_SHREDS distinct shreds
+   - a shred whose data / coding type contradicts its index is refused with InvalidShred and emits nothing; it
+     counts neither as evidence against the leader nor towards reconstruction (all clauses below are about the
+     remaining, type-consistent shreds)
+   - with honest, consistent, well-formed shreds: never InvalidBlock - a correct leader is NEVER flagged, whatever
+     types were flipped in transit - and the Block as soon as every slice has DATA_SHREDS distinct type-consistent
+     shreds
    - equivocation / malformed content revealed by stored data => InvalidBlock has been announced when the
      implementation refused the revealing shred *)
 Definition c13_step_ok (slot : N) (ct : content) (hist : list bstep) (st : bstep) : bool :=
   let upto := hist ++ [st] in
   let evs := all_events_b upto in
-  let shs := dissem_shreds upto in
+  let shs := filter tag_ok (dissem_shreds upto) in
   let repaired := existsb (fun s => match bs_op' s with BRepair _ _ _ => true | _ => false end) upto in
   let own := match own_slices upto with [] => false | _ => true end in
-  (* the first shred of the slot is announced once for dissemination / the leader's own slices; the repair
+  tag_refusal_ok st
+  && (* the first shred of the slot is announced once for dissemination / the leader's own slices; the repair
      path announces a first shred per (re)started repaired copy, which the correspondence pins down *)
-  (count_b is_first_ev (flat_map (fun s => match bs_op' s with BRepair _ _ _ => [] | _ => bs_events s end) upto) <=? 1)
+     (count_b is_first_ev (flat_map (fun s => match bs_op' s with BRepair _ _ _ => [] | _ => bs_events s end) upto) <=? 1)
   && (count_b is_invalid_ev evs <=? 1)
   && (repaired || own || (count_b is_block_ev evs <=? 1))
   && (* block events are justified *)
@@ -112,7 +126,7 @@ Definition c13_step_ok (slot : N) (ct : content) (hist : list bstep) (st : bstep
   && (* no block from dissemination once the leader was flagged *)
      (repaired || own || negb (existsb is_invalid_ev (all_events_b hist)) || negb (existsb is_block_ev (bs_events st)))
   && (* an honest leader is never flagged, and its block is announced as soon as it is reconstructible *)
-     (repaired || own || reveals_equivocation shs || negb (forallb tag_ok shs)
+     (repaired || own || reveals_equivocation shs
       || match honest_block slot ct shs with
          | Some _ => negb (existsb is_invalid_ev evs) && existsb is_block_ev evs
          | None =>
@@ -125,7 +139,8 @@ Definition c13_step_ok (slot : N) (ct : content) (hist : list bstep) (st : bstep
          end)
   && (* refusals as Equivocation / InvalidShred always come with (an earlier or simultaneous) InvalidBlock *)
      match bs_op' st, bs_ret' st with
-     | BDissem _, BRErr EEquivocation | BDissem _, BRErr EInvalidShred => existsb is_invalid_ev evs
+     | BDissem _, BRErr EEquivocation => existsb is_invalid_ev evs
+     | BDissem s, BRErr EInvalidShred => negb (tag_ok s) || existsb is_invalid_ev evs
      | _, BRPanic => false
      | _, _ => true
      end.
